@@ -160,3 +160,45 @@ Section History.
     | Change m :: r => m :: changes_of r
     end.
 End History.
+
+(* ------------------------------------------------------------------ sessions: several live instances *)
+
+(* One process may hold several Eups objects at a time, each built for its own flavor (Eups(flavor=...)) and with its
+   own options (selectVRO).  What an instance may look at is its own flavor followed by the configured fallbacks of
+   that flavor (utils.Flavor.getFallbackFlavors(self.flavor, includeMe=True)): a list that belongs to the instance.
+   Building another instance - whatever its flavor - changes neither the database nor that list.  A session is a
+   sequence of constructions and questions; every question is answered from the view and the asked instance's own
+   flavor list and VRO. *)
+Section Sessions.
+  Variable vcmp : str -> str -> comparison.
+  Variable vmatch : str -> str -> bool.
+
+  Record instance := mkInst { i_flavors : list str; i_vro : list entry }.
+
+  Inductive sevent :=
+  | SBuild (k : nat)                      (* instance number k of the session is constructed *)
+  | SAsk (k : nat) (q : question).        (* a question put to instance number k *)
+
+  (* the answers of a session, each with the number of the instance that gave it *)
+  Fixpoint run_session (c : config) (insts : list instance) (db : dbv) (h : list sevent) : list (nat * answer) :=
+    match h with
+    | [] => []
+    | SBuild _ :: r => run_session c insts db r
+    | SAsk k q :: r =>
+        match nth_error insts k with
+        | Some i => (k, answer_on vcmp vmatch c (i_flavors i) (i_vro i) db q) :: run_session c insts db r
+        | None => run_session c insts db r
+        end
+    end.
+
+  (* the questions put to instance k, in order *)
+  Fixpoint asks_of (k : nat) (h : list sevent) : list question :=
+    match h with
+    | [] => []
+    | SBuild _ :: r => asks_of k r
+    | SAsk j q :: r => if Nat.eqb j k then q :: asks_of k r else asks_of k r
+    end.
+
+  Definition answers_to (k : nat) (l : list (nat * answer)) : list answer :=
+    map snd (filter (fun x => Nat.eqb (fst x) k) l).
+End Sessions.
